@@ -81,15 +81,16 @@ def run(res, tier, seed, replay):
         kind = "bool" if i % 5 == 4 else "exec"
         cases.append((f"p{i}", "arm64", kind, f, j, (i & 1) if kind == "bool" else (r.getrandbits(48) | 1), "pre=" + PRE[i % len(PRE)]))
     distinct = set(); words = {}
-    for variant, march in (("linux", "arm64"), ("macos", "arm64m")):
-        impl = simlib.run_sim(bins, "debug", variant, cases)
+    # both build profiles: a check that exists only under debug assertions (debug_assert!, overflow checks) is no check in a release build
+    for profile, variant, march in (("debug", "linux", "arm64"), ("debug", "macos", "arm64m"), ("release", "linux", "arm64"), ("release", "macos", "arm64m")):
+        impl = simlib.run_sim(bins, profile, variant, cases)
         model = vlib.run_model([f"{c[0]} inst {march} 1 1 {c[2]} {c[3]:x} {c[4]:x} {c[5]:x}" for c in cases])
         mon, monc = [], {}
         for c in cases:
             cid = c[0]
             if cid not in impl or cid not in model: res.broke("correspondence: missing output", cid); continue
             a = simlib.canon_impl(impl[cid]); b = simlib.canon_model(model[cid])
-            case = dict(id=cid, variant=variant, kind=c[2], func=hex(c[3]), jit=hex(c[4]), x=hex(c[5]))
+            case = dict(id=cid, variant=variant, build_profile=profile, kind=c[2], func=hex(c[3]), jit=hex(c[4]), x=hex(c[5]))
             if len(c) > 6:
                 strip = lambda st_ev: (st_ev[0], [" ".join(e.split()[:2] + e.split()[3:]) if e.startswith("G ") else e for e in st_ev[1]])
                 g = [e for e in a[1] if e.startswith("G ")]
@@ -99,7 +100,7 @@ def run(res, tier, seed, replay):
             ist, iev = a
             d = c[4] - c[3]
             dcls = "in" if -R27 <= d < R27 else ("edge" if abs(abs(d) - R27) <= 64 else "far")
-            distinct.add((variant, c[2], dcls, ist, (c[5].bit_length() + 15) // 16))
+            distinct.add((variant, profile, c[2], dcls, ist, (c[5].bit_length() + 15) // 16))
             if ist == "OK":
                 ws = simlib.impl_writes(iev)
                 jit_w = [e for e in iev if e.startswith("I ")]
